@@ -22,7 +22,13 @@ func (c *decrypt3k3yCmd) Run() error {
 		return fmt.Errorf("image is not encrypted")
 	}
 
-	imageWrapped, err := fs.NewEncryptedISO(c.Image, key, true)
+	decrypted, err := fs.NewEncryptedISO(c.Image, key, true)
+	if err != nil {
+		return err
+	}
+
+	// also blank the 3k3y watermark and key, otherwise the result is taken for an encrypted 3k3y image again
+	imageWrapped, err := fs.NewISO3k3y(decrypted)
 	if err != nil {
 		return err
 	}
